@@ -5,7 +5,7 @@ from spec import c07 as S
 from checks.nskel import SKELETONS
 
 BOUNDS = {
-    "quick": "19 shared URL skeletons with holes of length 0..1 (0..2 for two host holes and the path hole after a '%') + 5 host skeletons with holes of length 0..2, over all code points; options normalize_amp / strip_suffix / suffix_aware / infer_redirection in {F,T}",
+    "quick": "21 shared URL skeletons with holes of length 0..1 (0..2 for two host holes and the path hole after a '%') + 5 host skeletons with holes of length 0..2, over all code points; an escaped 2-byte character (%C3 + a symbolic continuation escape) in path / routing fragment / query key and value; options normalize_amp / strip_suffix / suffix_aware / infer_redirection in {F,T}",
     "thorough": "holes of length 0..3 (host skeletons 0..4)",
 }
 STUBS = ["see C01"]
@@ -23,6 +23,16 @@ def urls(st, skel, n, flag):
     run_prop(st, "normalized_stems", S.normalized_stems, u, flag)
     run_prop(st, "fingerprinted_stems", S.fingerprinted_stems, u, flag)
     run_prop(st, "hostname_of_url", S.hostname_of_url, u)
+
+
+def escaped_letter(st, where, flag):
+    """an escaped 2-byte character (lead byte C3: Latin-1 letters, upper- and lower-case) in the path / fragment / query"""
+    from pysx.api import sym_tokens
+    t = cat("%C3", sym_tokens(st, "t", "e"))
+    u = {"path": cat("http://x.fr/", t, "cole"), "fragment": cat("http://x.fr/a#/", t, "cole"), "query": cat("http://x.fr/a?k=", t, "&", t, "=1")}[where]
+    run_prop(st, "canonicalized_stems", S.canonicalized_stems, u, flag)
+    run_prop(st, "normalized_stems", S.normalized_stems, u, flag)
+    run_prop(st, "fingerprinted_stems", S.fingerprinted_stems, u, flag)
 
 
 NESTED = [("http://blog.co.uk.", "blogspot.com/p"), ("https://a.co.jp.github.io/", ""), ("http://www.x", ".com.au.uk.com/")]
@@ -48,6 +58,9 @@ N2 = ("host-prefix", "host-suffix", "path-escape-index")
 def items(tier):
     quick = tier == "quick"
     out = []
+    for where in ("path", "fragment", "query"):
+        for flag in ((False,) if quick else (False, True)):
+            out.append({"fn": "escaped_letter", "params": {"where": where, "flag": flag}, "name": "escaped letter in %s flag=%s" % (where, flag), "weight": 60})
     for i in range(len(SKELETONS)):
         nmax = (2 if SKELETONS[i][0] in N2 else 1) if quick else 3
         for n in range(0, nmax + 1):
